@@ -476,9 +476,10 @@ def extremum_rows(eng, st, cell, other, n, op):
     define(z3.ForAll([i], z3.Implies(rng_i, z3.And(0 <= w(i), w(i) < to_z3(n), m(i) == ciw)), patterns=[m(i)]))
     # cross-instances of the bounding fact at the other reductions' attaining positions (instances of the facts above, nothing new):
     # they let the solver see that two reductions over pointwise-equal cells agree
+    same = lambda a, b: (a == b) if (isinstance(a, int) or isinstance(b, int)) else to_z3(a).eq(to_z3(b))
     for r in EXT_RECORDS:
-        if r['op'] != op:
-            continue
+        if r['op'] != op or not (same(r['n'], n) and same(r['other'], other)):
+            continue        # only reductions over rectangles of the same (syntactic) size can agree cell by cell
         for (ma, cella, na, oa), wb in (((m, cell, n, other), r['w']), ((r['m'], r['cell'], r['n'], r['other']), w)):
             c = to_z3(to_real(to_num(cella(i, wb(i)))))
             b = (ma(i) <= c) if op == 'min' else (c <= ma(i))
